@@ -14,8 +14,7 @@ Lemma sessions_w : forall ops : list op,
   (on_complete (ag ss) = true -> ~ In (owner ss) (map eid (events ss))) /\
   (on_complete (ag ss) = true ->
    forall f : nat -> answer, (forall i, len (a_data (f i)) < 4294967296) ->
-   exists k, on_complete (ag (s_replies k f ss)) = false /\
-             In (owner ss) (map eid (events (s_replies k f ss)))).
+   exists k, In (owner ss) (map eid (events (s_replies k f ss)))).
 Proof.
   intros ops Hok ss.
   assert (H : SI ss) by (apply SI_run; [apply SI_sess0 | exact Hok]).
@@ -76,9 +75,9 @@ Qed.
 Lemma nested_w : forall (ss : sess) (a : answer),
   on_complete (ag ss) = true -> on_complete (step false (ag ss) a) = false -> owner_act ss <> ANone ->
   events (s_reply a ss) =
-    (next_id ss, false, []) :: (owner ss, fst (res_of (step false (ag ss) a)), snd (res_of (step false (ag ss) a)))
-    :: events ss /\
-  ag (s_reply a ss) = step false (ag ss) a.
+    (owner ss, fst (res_of (step false (ag ss) a)), snd (res_of (step false (ag ss) a))) :: events ss /\
+  owner (s_reply a ss) = next_id ss /\
+  ag (s_reply a ss) = init (match owner_act ss with AInc => true | _ => false end) (step false (ag ss) a).
 Proof.
   intros [a0 o c n ev] a; cbn [ag owner owner_act events next_id]. intros H1 H2 H3.
   unfold s_reply, fire; cbn [ag owner owner_act next_id events]. rewrite H1, H2. cbn [andb negb].
